@@ -108,6 +108,8 @@ def md_for(kind, axis, n):
             d = {'taxonomy': ['k__A', 'p__B%d' % i, 's__C']}
         elif kind == 'taxonomy_ragged':
             d = {'taxonomy': ['k__A', 'p__B', 'c__C', 'o__D'][:1 + (i % 3)]}
+        elif kind == 'taxonomy_gap':     # a hierarchical list with an empty level (not in MD_KINDS: C01 excludes it)
+            d = {'taxonomy': [['k__A', '', 's__C%d' % i], ['k__A', '', '', 'g__G'], ['k__B', 'p__X', '', 's__%d' % i]][i % 3]}
         elif kind == 'collapsed_ids':
             d = {'collapsed_ids': ['m%d' % i, 'n%d' % i][:1 + (i % 2)]}
         elif kind == 'slashkey':
